@@ -321,6 +321,19 @@ func (m *ldbManager) getRollback(height uint64) Patch {
 	return patch
 }
 
+// frontierBatch collects a Patch as raw writes on the frontier key-space, using the same
+// encoding as ApplyPatch(NewLevelDBWrapper(ldb).Subset(frontierByte), patch)
+type frontierBatch struct {
+	batch *leveldb.Batch
+}
+
+func (fb *frontierBatch) Put(key []byte, value []byte) {
+	fb.batch.Put(common.JoinBytes(frontierByte, key), common.JoinBytes(existsByte, value))
+}
+func (fb *frontierBatch) Delete(key []byte) {
+	fb.batch.Put(common.JoinBytes(frontierByte, key), []byte{})
+}
+
 func (m *ldbManager) Add(transaction Transaction) error {
 	commits := transaction.GetCommits()
 
@@ -362,39 +375,46 @@ func (m *ldbManager) Add(transaction Transaction) error {
 	frontierIdentifier := GetFrontierIdentifier(NewLevelDBWrapper(m.ldb).Subset(frontierByte))
 
 	if previous == frontierIdentifier {
-		if err := m.ldb.Put(common.JoinBytes(patchByte, common.Uint64ToBytes(identifier.Height)), patch.Dump(), nil); err != nil {
+		// one batch, so that a crash leaves either none or all of the writes behind
+		batch := new(leveldb.Batch)
+		batch.Put(common.JoinBytes(patchByte, common.Uint64ToBytes(identifier.Height)), patch.Dump())
+		batch.Put(common.JoinBytes(rollbackByte, common.Uint64ToBytes(identifier.Height)), rollbackPatch.Dump())
+		if err := patch.Replay(&frontierBatch{batch: batch}); err != nil {
 			return err
 		}
-		if err := m.ldb.Put(common.JoinBytes(rollbackByte, common.Uint64ToBytes(identifier.Height)), rollbackPatch.Dump(), nil); err != nil {
-			return err
-		}
-		if err := ApplyPatch(NewLevelDBWrapper(m.ldb).Subset(frontierByte), patch); err != nil {
+		if err := m.ldb.Write(batch, nil); err != nil {
 			return err
 		}
 	}
 	return nil
 }
 func (m *ldbManager) Pop() error {
-	frontierIdentifier := GetFrontierIdentifier(m.Frontier())
-	rollbackPatch := m.getRollback(frontierIdentifier.Height)
+	m.changes.Lock()
+	defer m.changes.Unlock()
+	if m.stopped {
+		return errors.Errorf("can't rollback stopped db")
+	}
 
-	if err := ApplyPatch(NewLevelDBWrapper(m.ldb).Subset(frontierByte), rollbackPatch); err != nil {
+	frontierIdentifier := GetFrontierIdentifier(NewLevelDBWrapper(m.ldb).Subset(frontierByte))
+	rollbackPatch := m.getRollback(frontierIdentifier.Height)
+	if rollbackPatch == nil {
+		return errors.Errorf("can't find rollback information for %v", frontierIdentifier)
+	}
+
+	// one batch, so that a crash or a concurrent reader sees either none or all of the writes
+	batch := new(leveldb.Batch)
+	if err := rollbackPatch.Replay(&frontierBatch{batch: batch}); err != nil {
 		return err
 	}
-	if err := m.ldb.Delete(common.JoinBytes(patchByte, common.Uint64ToBytes(frontierIdentifier.Height)), nil); err != nil {
-		return err
-	}
-	if err := m.ldb.Delete(common.JoinBytes(rollbackByte, common.Uint64ToBytes(frontierIdentifier.Height)), nil); err != nil {
+	batch.Delete(common.JoinBytes(patchByte, common.Uint64ToBytes(frontierIdentifier.Height)))
+	batch.Delete(common.JoinBytes(rollbackByte, common.Uint64ToBytes(frontierIdentifier.Height)))
+	if err := m.ldb.Write(batch, nil); err != nil {
 		return err
 	}
 
 	// cached undo overlays were accumulated from the branch which is being abandoned
-	m.changes.Lock()
-	defer m.changes.Unlock()
-	if !m.stopped {
-		m.l1Cache.Purge()
-		m.l2Cache.Purge()
-	}
+	m.l1Cache.Purge()
+	m.l2Cache.Purge()
 
 	return nil
 }
